@@ -106,6 +106,7 @@ type c04Result struct {
 	redelivered  int
 	failedCalls  int
 	selfPaused   bool
+	selfResumes  int // times the supervisor resumed tasks that had paused themselves at the end
 	crashed      bool
 	rounds       int
 	sigs         []string
@@ -558,6 +559,27 @@ func runC04Case(sc *c04Scen, name string) *c04Result {
 		quiescent = true
 	} else {
 		why := x.quiesce()
+		// no fault is injected in these scenarios: a task that paused ITSELF gave up on something it read. Like an
+		// operator the supervisor resumes it (twice at most) and asks for quiescence again
+		for attempt := 0; attempt < 2 && why != "" && x.s.childAlive(); attempt++ {
+			resumed := 0
+			for _, id := range x.rs.taskIDs {
+				if id == "" {
+					continue
+				}
+				if st, rsn, ok := x.rs.taskState(id); ok && st == "Paused" && !strings.Contains(rsn, "manually pause") {
+					x.s.log(sevt{Kind: "note", Note: "self-paused task resumed by the supervisor: " + rsn})
+					x.s.api("resume", map[string]any{"task_id": id})
+					resumed++
+				}
+			}
+			if resumed == 0 {
+				break
+			}
+			res.selfResumes++
+			time.Sleep(300 * time.Millisecond)
+			why = x.quiesce()
+		}
 		if why != "" {
 			if p := x.crashNote(); p != "" {
 				res.crashed = true
@@ -574,6 +596,21 @@ func runC04Case(sc *c04Scen, name string) *c04Result {
 }
 
 func (x *c04Run) taskID(i int) string { return x.rs.taskIDs[i] }
+
+// ownerSelfPaused returns the pause reason of the task that replicates collection ci when that task is paused for
+// a reason of its own ("" otherwise).
+func (x *c04Run) ownerSelfPaused(ci int) string {
+	cd := x.sc.Sc.Colls[ci]
+	for i, td := range x.sc.Sc.Tasks {
+		if i >= len(x.rs.taskIDs) || x.rs.taskIDs[i] == "" || (td.DB != "*" && td.DB != cd.DB) {
+			continue
+		}
+		if st, rsn, ok := x.rs.taskState(x.rs.taskIDs[i]); ok && st == "Paused" && !strings.Contains(rsn, "manually pause") {
+			return rsn
+		}
+	}
+	return ""
+}
 
 func (x *c04Run) exec(st c04Step) string {
 	s, rs := x.s, x.rs
@@ -1287,6 +1324,8 @@ func (x *c04Run) judge(quiescent bool) {
 		}
 		if total == 0 && complete {
 			switch {
+			case !quiescent && res.selfResumes >= 2 && x.ownerSelfPaused(d.Coll) != "":
+				once("C04/e2e-drop-request-missing", name, fmt.Sprintf("%s was dropped upstream (drop message appended on all %d shards in order %v, catalog state changed at clock %d); no fault was injected, yet the task that replicates it paused itself, and did so again after each of %d resumes by the supervisor (%s): no successful drop call for it ever arrived", name, o.shards, d.Order, x.metaAt[objKey(d.Coll, d.Part)], res.selfResumes, x.ownerSelfPaused(d.Coll)))
 			case !quiescent:
 				if res.inconclusive == "" {
 					res.inconclusive = "no drop call for " + name + " and no quiescence" + selfPausedNote
@@ -1387,7 +1426,7 @@ var _ = json.Marshal
 
 func runC04S(tier string) *vf.Run {
 	run := vf.NewRun("C04", tier, "exploration")
-	run.Rule = "end-to-end part of C04 (whole real service in a killable child between an embedded etcd, a file message queue and a fake downstream Milvus over gRPC). A scenario is a pure function of (seed, index): 3 source physical channels; a never-dropped collection default.zc for sentinels; databases default and db_b (db_b pre-created downstream), each with 1-2 collections (the first of each database has the SAME name c0, so a partition drop routed to the wrong database hits a real object; a collection that is dropped as a whole gets a name of its own) of 1-3 shards and 1-3 user partitions, created in a seeded order; ONE task over all databases (db_collections {\"*\": [{\"name\": \"*\"}]}); a pump ticks every channel every 100 ms and keeps the TSO key ahead. Kinds: K1 objects exist before the task (start-up scan), then a partition of a collection whose database is / is not the last in the catalog listing is dropped; K2 objects created while the task runs (watch), incl. partitions created right after their collection and one created later; K3 collection drop (+ a partition of another collection); K4 drop while paused / while the process is down (SIGKILL + restart), drop delivered and THEN pause+resume / kill+restart, stop placed between the shards' drop messages; K5 pause / resume / delete / restart without any upstream drop; K6 collection drop whose event meets a full api-event queue (a held CreatePartition reply, ten queued events of another task's start-up scan) while its task is paused and two other tasks keep the target's reader alive. A drop = the drop message appended on every shard in a seeded order (half of the drops with 0.4-0.8 s between the shards) with trailing rows on the not-yet-dropped shards, then the catalog state change. Non-trivial = the scenario ran to its end and was decided (quiescent); distinct by (kind, sub-kind, object type, shards, shard order, database position, case)."
+	run.Rule = "end-to-end part of C04 (whole real service in a killable child between an embedded etcd, a file message queue and a fake downstream Milvus over gRPC). A scenario is a pure function of (seed, index): 3 source physical channels; a never-dropped collection default.zc for sentinels; databases default and db_b (db_b pre-created downstream), each with 1-2 collections (the first of each database has the SAME name c0, so a partition drop routed to the wrong database hits a real object; a collection that is dropped as a whole gets a name of its own) of 1-3 shards and 1-3 user partitions, created in a seeded order; ONE task over all databases (db_collections {\"*\": [{\"name\": \"*\"}]}); a pump ticks every channel every 100 ms and keeps the TSO key ahead. Kinds: K1 objects exist before the task (start-up scan), then a partition of a collection whose database is / is not the last in the catalog listing is dropped; K2 objects created while the task runs (watch), incl. partitions created right after their collection and one created later; K3 collection drop (+ a partition of another collection); K4 drop while paused / while the process is down (SIGKILL + restart), drop delivered and THEN pause+resume / kill+restart, stop placed between the shards' drop messages; K5 pause / resume / delete / restart without any upstream drop; K6 collection drop whose event meets a full api-event queue (a held CreatePartition reply, ten queued events of another task's start-up scan) while its task is paused and two other tasks keep the target's reader alive; K7 two tasks of one target (one per database): the one that owns a collection with user partitions is paused and resumed while the other keeps the target's reader objects alive, THEN a partition registered before the pause (or the whole collection) is dropped. A drop = the drop message appended on every shard in a seeded order (half of the drops with 0.4-0.8 s between the shards) with trailing rows on the not-yet-dropped shards, then the catalog state change. Non-trivial = the scenario ran to its end and was decided (quiescent); distinct by (kind, sub-kind, object type, shards, shard order, database position, case)."
 	run.Assumptions = []string{
 		"clock: one logical counter in the supervisor; a downstream DDL call is stamped when it arrives at the fake (before it is applied), an upstream message carries a stamp taken before and one taken after it was appended; 'before every shard' is judged against the BEFORE stamps, 'row after the drop call' against rows whose BEFORE stamp is later than the call",
 		"upstream order of a drop: drop message on every shard first, catalog state (Dropped) afterwards; the CDC's etcd watch ignores non-Created states, so the catalog state only matters to a reader (re)started later; appends and ticks are serialised so that timestamps never go backwards on a channel",
